@@ -482,6 +482,7 @@ package hclsyntax
 //@ loopall invariant srcBytes: forall q *byte :: { deref(q) } existed(q) ==> deref(q) == old(deref(q))
 //@ loop 1 invariant decoded: len(diags) > 0 || litDecodes - old(litDecodes) == quotedRead - old(quotedRead)
 
+// verif:unit U15 props=C06
 // For expressions: the marks of the collection value are on the result on every path; the only
 // exception are returns of cty.DynamicVal accompanied by at least one diagnostic (the error paths).
 // verif:func (*ForExpr).Value
@@ -516,6 +517,7 @@ package hclsyntax
 //@ ensures expand: old(e.ExpandFinal) && old(len(e.Args)) >= 1 && !isKnownVal(exprVal(old(e.Args[len(e.Args) - 1]), ctx)) ==> len(ret1) > 0 || (forall k iface :: { marked(ret0, k) } marked(exprVal(old(e.Args[len(e.Args) - 1]), ctx), k) ==> marked(ret0, k))
 
 // ---- the range of an attribute-only splat (unit U11d, C14) ----
+// verif:unit U11d props=C14,C15
 // numberLitValue only converts the token's text.
 // verif:func (*parser).numberLitValue
 //@ nosafety
